@@ -156,7 +156,11 @@ def check_frame(out, rng, fr, sess, pending):
   except Exception as e:
     out.oracle_violation(dict(facts, symptom='exception', exception=type(e).__name__), dict(case, a=a, b=b), f'scaled frame raised {type(e).__name__}: {e}')
     return
-  if rep3['scenario'] == scen and cond:
+  cpx = en.series(fr, use_cool, col=5)[0]
+  cost_regression_ok = scen == 'fixed' or (len(cpx) >= 3 and float(np.std(cpx)) > 1e-9 * max(1.0, float(np.abs(cpx).max())))
+  # (variable cost with a constant control cost in the pre-period: the cost regression is rank deficient and its
+  # minimum-norm solution is not scale equivariant - a degenerate cost effect, outside the claim)
+  if rep3['scenario'] == scen and cond and cost_regression_ok:
     for c, f in (('estimate', b / a), ('lower', b / a), ('upper', b / a), ('precision', b / a), ('probability', 1.0),
                  ('relative_lift', 1.0), ('relative_lift_lower', 1.0), ('incremental_cost', a), ('incremental_response', b)):
       if not en.close(rep3[c], f * rep[c], 1e-7, 1e-12):
